@@ -304,10 +304,11 @@ class _Spell(ast.NodeTransformer):
                 fn = "ones" if n.args[1].value else "zeros"
                 return ast.copy_location(ast.Call(func=ast.Attribute(value=ast.Name(id="np", ctx=ast.Load()), attr=fn, ctx=ast.Load()), args=[n.args[0]],
                                                   keywords=[ast.keyword(arg="dtype", value=ast.Name(id="bool", ctx=ast.Load()))]), n)
-        # x.sum() / x.max() ... with no arguments  ->  np.sum(x): one spelling for reductions
-        if isinstance(f, ast.Attribute) and f.attr in ("sum", "min", "max", "mean", "std", "cumsum", "argmax", "argmin", "prod") and not n.args and not n.keywords \
+        # x.sum() / x.max() ... with no arguments (or only axis=)  ->  np.sum(x): one spelling for reductions
+        if isinstance(f, ast.Attribute) and f.attr in ("sum", "min", "max", "mean", "std", "cumsum", "argmax", "argmin", "prod") and not n.args \
+                and (not n.keywords or (len(n.keywords) == 1 and n.keywords[0].arg == "axis")) \
                 and not (isinstance(f.value, ast.Name) and f.value.id in ("np", "numpy", "math", "self", "ndimage")) and not _is_np(f):
-            return ast.copy_location(ast.Call(func=ast.Attribute(value=ast.Name(id="np", ctx=ast.Load()), attr=f.attr, ctx=ast.Load()), args=[f.value], keywords=[]), n)
+            return ast.copy_location(ast.Call(func=ast.Attribute(value=ast.Name(id="np", ctx=ast.Load()), attr=f.attr, ctx=ast.Load()), args=[f.value], keywords=list(n.keywords)), n)
         # type(self) -> self.__class__
         if isinstance(f, ast.Name) and f.id == "type" and len(n.args) == 1 and not n.keywords and isinstance(n.args[0], ast.Name) and n.args[0].id == "self":
             return ast.copy_location(ast.Attribute(value=n.args[0], attr="__class__", ctx=ast.Load()), n)
@@ -532,6 +533,53 @@ def _forelse_form(block):
             _forelse_form(b)
 
 
+def _inline_test_temps(fn):
+    """flag = <comparison of never-reassigned names>  …  if flag:   ->   the comparison is substituted at its uses
+    (only for names bound once at the top level of the function and read only as (part of) branch tests)"""
+    stores = {}
+    for n in ast.walk(fn):
+        if isinstance(n, ast.Name) and isinstance(n.ctx, (ast.Store, ast.Del)):
+            stores[n.id] = stores.get(n.id, 0) + 1
+        elif isinstance(n, (ast.FunctionDef, ast.Lambda)) and n is not fn:
+            return  # closures may read the flag later: leave such functions alone
+    params = {a.arg for a in fn.args.posonlyargs + fn.args.args + fn.args.kwonlyargs}
+    tests = set()
+    for n in ast.walk(fn):
+        if isinstance(n, (ast.If, ast.While, ast.IfExp)):
+            t = n.test
+            stack = [t]
+            while stack:
+                x = stack.pop()
+                tests.add(id(x))
+                if isinstance(x, ast.BoolOp):
+                    stack.extend(x.values)
+                elif isinstance(x, ast.UnaryOp) and isinstance(x.op, ast.Not):
+                    stack.append(x.operand)
+    cands = {}
+    for s in fn.body:
+        if isinstance(s, ast.Assign) and len(s.targets) == 1 and isinstance(s.targets[0], ast.Name) and stores.get(s.targets[0].id) == 1 and s.targets[0].id not in params \
+                and isinstance(s.value, (ast.Compare, ast.BoolOp)) and not any(isinstance(c, (ast.Call, ast.Subscript, ast.NamedExpr)) for c in ast.walk(s.value)):
+            free = {n.id for n in ast.walk(s.value) if isinstance(n, ast.Name)}
+            if all(stores.get(v, 0) == 0 for v in free):  # parameters / globals that are never rebound
+                cands[s.targets[0].id] = s
+    if not cands:
+        return
+    for name, st in list(cands.items()):
+        loads = [n for n in ast.walk(fn) if isinstance(n, ast.Name) and n.id == name and isinstance(n.ctx, ast.Load)]
+        if not loads or not all(id(n) in tests for n in loads):
+            del cands[name]
+    if not cands:
+        return
+
+    class _R(ast.NodeTransformer):
+        def visit_Name(self, n):
+            if isinstance(n.ctx, ast.Load) and n.id in cands:
+                return copy.deepcopy(cands[n.id].value)
+            return n
+
+    fn.body = [_R().visit(s) for s in fn.body if s not in cands.values()]
+
+
 def _property_form(tree):
     """name = property(fget[, fset]) in a class body -> decorated methods"""
     for cls in ast.walk(tree):
@@ -661,6 +709,7 @@ def prenormalize(tree: ast.Module) -> ast.Module:
             _while_form(fn.body)
             _continue_form(fn.body)
             _forelse_form(fn.body)
+            _inline_test_temps(fn)
     _property_form(tree)
     _flatten_private_bases(tree)
     ast.fix_missing_locations(tree)
